@@ -52,7 +52,10 @@ def dump(roots):
             return [type(v).__name__] + [val(x) for x in v]
         if isinstance(v, dict):
             out = [type(v).__name__] + [[val(k), val(x)] for k, x in v.items()]
-            parent = getattr(v, "_parent", None)
+            try:
+                parent = vars(v).get("_parent")
+            except TypeError:
+                parent = None
             if parent is not None:
                 out.append(["_parent", ref(parent)])
             return out
